@@ -1809,7 +1809,7 @@ def _project_onto_hyperplane(weights, joint_unimodalities, hyperplane,
 
   affected_weights = tf.stack(affected_weights, axis=-1)
   violation = tf.reduce_sum(affected_weights * hyperplane, axis=-1)
-  if direction == "valley":
+  if direction.lower() == "valley":
     violation = tf.minimum(violation, 0.0)
   else:
     violation = tf.maximum(violation, 0.0)
@@ -2037,8 +2037,8 @@ def project_by_dykstra(weights,
         for offsets in itertools.product([-1, 1], repeat=len(dimensions)):
           # For this projection constraint group is represented by pair: vertex,
           # offsets.
-          projection_key = ("JOINT_UNIMODALITY", dimensions, constraint[1],
-                            vertex, offsets)
+          projection_key = ("JOINT_UNIMODALITY", dimensions,
+                            constraint[1].lower(), vertex, offsets)
           if projection_key in last_change:
             rolled_back_weights = weights - last_change[projection_key]
           else:
